@@ -181,6 +181,22 @@ STEPPERS = ["system_dynamics:compute_dynamics",
             "gradient:compute_gradient_and_dynamics"]
 
 
+def label_assignments(u) -> List[ast.Assign]:
+    """Assignments to the local that is handed to the result object as its time axis
+    (`Dynamics(times=...)` / `MeanFieldDynamics(times=...)`), whatever it is called."""
+    names = set()
+    for c in walk_local(u.node):
+        if isinstance(c, ast.Call) and (call_name(c) or "").endswith("Dynamics"):
+            v = next((k.value for k in c.keywords if k.arg == "times"), None)
+            if v is None and c.args:
+                v = c.args[0]
+            if v is not None:
+                names |= {y.id for y in ast.walk(v) if isinstance(y, ast.Name)
+                          and y.id not in ("list", "tuple", "np")}
+    return [st for st in walk_local(u.node) if isinstance(st, ast.Assign) and len(st.targets) == 1
+            and isinstance(st.targets[0], ast.Name) and st.targets[0].id in names]
+
+
 def g2_g3_steppers(prog: Program, chk: Check) -> None:
     chk.rule("G2", "with record_all False the single returned state is labelled "
              "START + NUM_STEPS*DT (the label depends on the number of propagated steps)",
@@ -192,10 +208,7 @@ def g2_g3_steppers(prog: Program, chk: Check) -> None:
         du = DefUse(u, CFG(u.node, exc_edges=False))
         chk.saw(u, du.cfg)
         found = {True: 0, False: 0}
-        for st in walk_local(u.node):
-            if not (isinstance(st, ast.Assign) and len(st.targets) == 1
-                    and dotted(st.targets[0]) == "times"):
-                continue
+        for st in label_assignments(u):
             ctx = [(t, br) for (t, br) in branch_context(u.node, st) if dotted(t) == "record_all"]
             if len(ctx) != 1:
                 raise AnalysisError(f"G2: `times` at {u.loc(st)} is not under `if record_all`")
@@ -315,8 +328,10 @@ def g3_front_ends(prog: Program, chk: Check) -> None:
     du = DefUse(u, CFG(u.node, exc_edges=False))
     chk.saw(u, du.cfg)
     hit = 0
+    from rules.c07 import NtView
+    _axes = NtView(prog).ret_times      # the returned list of time axes, whatever it is called
     for c in walk_local(u.node):
-        if isinstance(c, ast.Call) and method_call(c) == ("ret_times", "append"):
+        if isinstance(c, ast.Call) and method_call(c) == (_axes, "append"):
             hit += 1
             nid = du.node_of(c)
 
